@@ -84,7 +84,8 @@ impl Check for RtcConvergence {
         for _ in 0..n_ops {
             let s = rng.usize_below(n_src);
             let o = rng.usize_below(n_obs);
-            match rng.weighted(&[30, 10, 22, if en_win { 10 } else { 0 }, 4, 4, 6, 3, if eor_at_once { 0 } else { 4 }, 3]) {
+            match rng.weighted(&[30, 10, 22, if en_win { 10 } else { 0 }, 4, 4, 6, 3, if eor_at_once { 0 } else { 4 }, 3, 4]) {
+                10 => ops.push(jarr!["rr", o, rng.coin()]),
                 0 => {
                     let spec = gen_rspec(&mut rng, src_roles[s], asn_for(src_roles[s], s));
                     // 0-2 route targets out of three
@@ -134,7 +135,7 @@ impl Check for RtcConvergence {
 
     fn info(&self) -> CheckInfo {
         CheckInfo {
-            rule: "1-2 source sessions (eBGP / iBGP / RR client, optional add-path towards the DUT) announce, replace and withdraw 2-6 VPNv4 prefixes carrying 0-2 of 3 route targets, crash (FIN / RST) and come back; 1-2 observers (eBGP / iBGP / RR client, send-max 1-2) negotiated RTC and VPNv4, announce and withdraw RT-membership routes (exact match for one of the 3 targets; the default membership in a third of the runs), send their RTC End-of-RIB at once, later or never (virtual waits up to 61 s cross the daemon's 60 s timer), are bounced, and have their receive window opened and closed by the schedule; 1-3 shards. At check points: windows opened, a missing RTC End-of-RIB sent, quiescence; an identically configured twin connects, announces the observer's membership of that instant, sends its RTC End-of-RIB and is given its initial dump; the VPNv4 part of mirror(observer) must equal that of mirror(twin). non-trivial = a check compared a non-empty view or a membership / route change happened while a window was closed; distinct = hash of the seam-event sequence".into(),
+            rule: "1-2 source sessions (eBGP / iBGP / RR client, optional add-path towards the DUT) announce, replace and withdraw 2-6 VPNv4 prefixes carrying 0-2 of 3 route targets, crash (FIN / RST) and come back; 1-2 observers (eBGP / iBGP / RR client, send-max 1-2) negotiated RTC and VPNv4, announce and withdraw RT-membership routes (exact match for one of the 3 targets; the default membership in a third of the runs), send their RTC End-of-RIB at once, later or never (virtual waits up to 61 s cross the daemon's 60 s timer), are bounced, ask for the VPN table again (ROUTE-REFRESH) or are soft-reset outbound by the operator, and have their receive window opened and closed by the schedule; 1-3 shards. At check points: windows opened, a missing RTC End-of-RIB sent, quiescence; an identically configured twin connects, announces the observer's membership of that instant, sends its RTC End-of-RIB and is given its initial dump; the VPNv4 part of mirror(observer) must equal that of mirror(twin). non-trivial = a check compared a non-empty view or a membership / route change happened while a window was closed; distinct = hash of the seam-event sequence".into(),
             components_real: vec!["PeerSession::{handle_prefix_update, do_route_refresh, rtc_vpn_refresh_families, on_established, rx_update (RTC End-of-RIB)}, rtc::{RtcState, RtcFilter}, TableManager::{collect_rtc_paths, trigger_rtc_export}".into(), "export::process_nlri_change, ExportMap, peer_tx::PendingTx; the VPNv4 and RTC codecs both ways".into()],
             components_stubbed: vec!["TCP, clock, listener/dispatch loop, remote speakers".into()],
             assumptions: vec!["only the default membership and exact matches are used (the daemon treats an AS-wide membership like the default one; the statement does not say)".into()],
@@ -259,6 +260,21 @@ async fn run(case: Json, tol: Tolerate) -> Outcome {
                     t.nodes[n_src + o].spk.eor(Family::RTC);
                     eor_sent[o] = true;
                     out.hit("op.rtc-end-of-rib-sent-late");
+                    t.w.quiesce().await;
+                }
+            }
+            "rr" => {
+                // the observer asks for the VPN table again (ROUTE-REFRESH), or the operator soft-resets it outbound
+                let node = n_src + op.at(1).as_usize() % n_obs;
+                if t.nodes[node].spk.established() {
+                    if op.at(2).as_bool() {
+                        t.nodes[node].spk.send(&bgp::Message::RouteRefresh { family: Family::IPV4_VPN });
+                        out.hit("op.route-refresh");
+                    } else {
+                        let req = api::ResetPeerRequest { address: t.nodes[node].cfg.addr.to_string(), soft: true, direction: api::reset_peer_request::Direction::Out as i32, ..Default::default() };
+                        let _ = t.w.grpc.reset_peer(tonic::Request::new(req)).await;
+                        out.hit("op.soft-reset-out");
+                    }
                     t.w.quiesce().await;
                 }
             }
